@@ -163,10 +163,12 @@ pub fn try_answer_left_neighbor<Node>(
 
 /// Send an ExtendRangeRequest to the right worker and resend it
 /// recursively if a new right neighbor is provided
+///
+/// Fails if the right worker is gone without answering, which only happens when it failed itself.
 pub fn request_range_extension<Node>(
     worker_params: &mut WorkerParams<Node>,
     nodes_tracker: &mut NodesTracker<Node>,
-) {
+) -> std::io::Result<()> {
     #[cfg(nomt_verif)]
     crate::verif::probe("beatree.extend_range_request");
     // UNWRAP: we should only be requesting a range extension when we have a right neighbor.
@@ -176,11 +178,16 @@ pub fn request_range_extension<Node>(
     let (tx, rx) = crossbeam_channel::unbounded();
     let request = ExtendRangeRequest { tx };
 
-    // UNWRAP: right neighbor never drops until left neighbor is done.
-    right_neighbor.tx.send(request).unwrap();
+    // The right neighbor never drops until the left neighbor is done, unless it failed.
+    let neighbor_failed =
+        || std::io::Error::new(std::io::ErrorKind::Other, "neighboring update worker failed");
 
-    // UNWRAP: right neighbor never drops until left neighbor is done.
-    let mut response = rx.recv().unwrap();
+    right_neighbor
+        .tx
+        .send(request)
+        .map_err(|_| neighbor_failed())?;
+
+    let mut response = rx.recv().map_err(|_| neighbor_failed())?;
 
     worker_params.range.high = response.new_high_range;
 
@@ -223,7 +230,9 @@ pub fn request_range_extension<Node>(
         if worker_params.right_neighbor.is_some() {
             // exhausting the range means we didn't get a node to merge with.
             // try again with the next right neighbor.
-            request_range_extension(worker_params, nodes_tracker);
+            request_range_extension(worker_params, nodes_tracker)?;
         }
     }
+
+    Ok(())
 }
